@@ -186,3 +186,92 @@ def _ex_edges_from():
 
 from pyvc.contract import lookup as _lookup   # noqa: E402
 _lookup('cgsmiles.resolve:MoleculeResolver.edges_from_bonding_descrpt').examples = _ex_edges_from
+
+
+# ------------------------------------------------------------------------------------------------
+# MoleculeResolver.resolve_disconnected_molecule — instantiate one copy of the fragment of every real coarse node
+_MG = "self.meta_graph"
+_HASFRAG = "(has_attr(" + _MG + ", k, 'fragname') and attr(" + _MG + ", k, 'fragname') in fragment_dict)"
+_GK = "attr(" + _MG + ", k, 'graph')"
+
+
+_NODE_FACTS = ("all(has_attr(" + _MG + ", k, 'graph') and fresh_graph(" + _GK + ") and " + _GK + " != self.molecule and "
+               "all(has_node(self.molecule, n) and has_attr(self.molecule, n, 'fragid') and len(attr(self.molecule, n, 'fragid')) == 1 and "
+               "attr(self.molecule, n, 'fragid')[0] == k and has_attr(" + _GK + ", n, 'fragid') and len(attr(" + _GK + ", n, 'fragid')) == 1 and "
+               "attr(" + _GK + ", n, 'fragid')[0] == k for n in nodes(" + _GK + ")) "
+               "for k in nodes(" + _MG + ") if {cond})")
+
+
+def _ex_rdm():
+    import logging
+    logging.getLogger('pysmiles').setLevel(logging.ERROR)
+    import networkx as nx
+    from cgsmiles.resolve import MoleculeResolver
+    strings = ["{[#A][#B]}.{#A=CC[$],#B=[$]O}", "{[#V].[#A][#B]}.{#A=CC[$],#B=[$]O}", "{[#A].[#V].[#B]}.{#A=CC[$],#B=[$]O}",
+               "{[#A]|3}.{#A=[$]CC[$]}", "{[#A][#B]}.{#A=[#a][#b][$],#B=[$][#c]}", "{[#A][#V][#B]}.{#A=CC[$],#B=[$]O}",
+               "{[#A]1[#B][#C]1}.{#A=[$]C[$],#B=[$]N[$],#C=[$]O[$]}", "{[#V]}.{#A=C}"]
+    for s in strings:
+        for all_atom in (True,):
+            try:
+                res = MoleculeResolver.from_string(s, last_all_atom=('#a' not in s))
+            except Exception:
+                continue
+            res.meta_graph = res.molecule
+            nx.set_node_attributes(res.meta_graph, nx.get_node_attributes(res.meta_graph, "fragname"), "fragname")
+            res.molecule = nx.Graph()
+            yield {'self': res, 'fragment_dict': res.fragment_dicts[0]}
+
+
+contract(
+    target='cgsmiles.resolve:MoleculeResolver.resolve_disconnected_molecule', serves=['C02', 'C11', 'C20', 'C01'],
+    self_fields={'meta_graph': 'Graph:mol', 'molecule': 'Graph:mol'},
+    types={'fragment_dict': 'Dict[Str,Graph:tmpl]'}, returns=None,
+    requires=[
+        _MG + " != self.molecule",
+        "n_nodes(self.molecule) == 0",
+        "all(has_attr(" + _MG + ", k, 'fragname') for k in nodes(" + _MG + "))",
+        "all(has_eattr(" + _MG + ", e[0], e[1], 'order') for e in edge_list(" + _MG + "))",
+        "all(fragment_dict[f] != self.molecule and fragment_dict[f] != " + _MG + " for f in keys(fragment_dict))",
+    ],
+    ensures=[
+        # every real coarse node gets its own new fragment graph; its nodes are nodes of the fine graph that record exactly this
+        # coarse node as their origin and carry the template atom they were copied from
+        _NODE_FACTS.format(cond=_HASFRAG),
+        # a node without a fragment (virtual node) is left alone
+        "all(implies(not " + _HASFRAG + ", attr_unchanged(" + _MG + ", k, 'graph')) for k in nodes(" + _MG + "))",
+    ],
+    # a fragment-less node that takes part in a bond of order >= 1 is rejected
+    raises={'SyntaxError': {'iff': True, 'when':
+            "any(not " + _HASFRAG + " and any(has_edge(" + _MG + ", k, m) and eattr(" + _MG + ", k, m, 'order') != 0 for m in nodes(" + _MG + ")) "
+            "for k in nodes(" + _MG + "))"}},
+    modifies=["self.molecule", _MG + ":attr:graph"], allocates=True,
+    loops={
+        0: Loop(over='self.meta_graph.nodes', modifies=["self.molecule", _MG + ":attr:graph"], invariant=[
+            _NODE_FACTS.format(cond=_HASFRAG + " and node_index(" + _MG + ", k) < _i0"),
+            "all(implies(not " + _HASFRAG + " or node_index(" + _MG + ", k) >= _i0, attr_unchanged(" + _MG + ", k, 'graph')) for k in nodes(" + _MG + "))",
+            # no fragment-less node seen so far takes part in a bond of order >= 1 (otherwise SyntaxError was raised)
+            "all(implies(not " + _HASFRAG + " and node_index(" + _MG + ", k) < _i0, "
+            "all(implies(has_edge(" + _MG + ", k, m), eattr(" + _MG + ", k, m, 'order') == 0) for m in nodes(" + _MG + "))) for k in nodes(" + _MG + "))",
+        ]),
+        1: Loop(over='fragment.nodes', modifies=["self.molecule:attr:fragid,attr:mapping", "graph_frag"], invariant=[
+            "fresh_graph(graph_frag) and graph_frag != self.molecule",
+            # what was built for the coarse nodes before this one is not disturbed
+            _NODE_FACTS.format(cond=_HASFRAG + " and node_index(" + _MG + ", k) < _i0") + " and "
+            "all(" + _GK + " != graph_frag for k in nodes(" + _MG + ") if " + _HASFRAG + " and node_index(" + _MG + ", k) < _i0)",
+            "forall_int(lambda n: implies(has_node(fragment, n), n in correspondence and has_node(self.molecule, correspondence[n])))",
+            "all(any(correspondence[nodes(fragment)[j]] == n for j in range(_i1)) for n in nodes(graph_frag))",
+            "all(has_node(graph_frag, correspondence[nodes(fragment)[j]]) and has_node(self.molecule, correspondence[nodes(fragment)[j]]) for j in range(_i1))",
+            "all(has_attr(self.molecule, n, 'fragid') and len(attr(self.molecule, n, 'fragid')) == 1 and attr(self.molecule, n, 'fragid')[0] == meta_node and "
+            "has_attr(graph_frag, n, 'fragid') and len(attr(graph_frag, n, 'fragid')) == 1 and attr(graph_frag, n, 'fragid')[0] == meta_node "
+            "for n in nodes(graph_frag))",
+        ]),
+        2: Loop(over='fragment.edges', modifies=["graph_frag:edges,eattrs"], invariant=[],
+                pre_lemmas=["has_edge(fragment, a, b) and has_node(fragment, a) and has_node(fragment, b)"]),
+    },
+    heap_invariants=['fragid'],
+    wf_all_graphs=True,
+    callee_clauses={'merge_graphs': ['len(result)', 'keys(result)[j] ==', 'forall_int(lambda n: has_node(source_graph, n) ==',
+                                     'implies(has_node(target_graph, n), n in result',
+                                     "node_unchanged(source_graph, n)", "n_nodes(source_graph) =="]},
+    examples=_ex_rdm,
+)
